@@ -22,7 +22,7 @@ what the method is for.  What is added here (together with Model/PyPreludeSingle
   canon       the canonical form is typed `Option κ`: `none` stands for a FALSY canonical form (`None`, the empty tuple), `some k`
               for a truthy one; `κ` is an abstract type with decidable equality.  The keys of `_instanceCanon` are typed `κ`: a
               falsy form is never a key.  Hence for `canon : Option κ`: `canon in cls.A` -> `Py.dictHasO` (False for `none`),
-              `cls.A.get(canon, None)` -> `Py.dictGetOptO` (None for `none`), `cls.A[canon]` -> `(← Py.dictGetO …)` (KeyError for
+              `cls.A.get(canon, None)` -> `Py.dictGetOptO` (None for `none`), `cls.A[canon]` -> `(← Py.dictGetKO …)` (KeyError for
               `none`), and `cls.A[canon] = v` -> the key is `(← Py.keyOf canon)`: the explicit translator fault
               `Err.fault "translator:falsy-key"` for `none` (outside the typing; never silent - Props/PySingleton shows it
               unreachable).
@@ -134,7 +134,7 @@ class SingletonTx(FuncTx):
             if ta == td[1]:
                 return '(← Py.dictGet %s %s)' % (d, a), td[2]
             if ta == O(td[1]):
-                return '(← Py.dictGetO %s %s)' % (d, a), td[2]
+                return '(← Py.dictGetKO %s %s)' % (d, a), td[2]
             raise Shape('%s: subscript with a %s of a dict with %s keys' % (self.name, ty(ta), ty(td[1])))
         if isinstance(node, ast.Call) and isinstance(node.func, ast.Attribute) and node.func.attr == '__call__':
             if not same(node, CONSTRUCT) or not self.spec.get('constructor'):
